@@ -4,14 +4,14 @@ P=$1; PATCH=$2; TIER=${3:-quick}
 WT=/tmp/seedwt/$P
 mkdir -p /tmp/seedwt
 [ -d $WT ] || git -C /repo worktree add --detach $WT HEAD >/dev/null 2>&1
-git -C $WT checkout -q --detach $(git -C /repo rev-parse HEAD); git -C $WT checkout -q -- . ; git -C $WT clean -fdq
+git -C $WT reset -q --hard 2>/dev/null; git -C $WT checkout -q --detach $(git -C /repo rev-parse HEAD); git -C $WT checkout -q -- . ; git -C $WT clean -fdq
 git -C $WT apply $PATCH 2>/dev/null || git -C $WT apply --3way $PATCH >/dev/null 2>&1 || { echo "PATCH DOES NOT APPLY"; echo "try_seed rc=3"; exit 3; }
 git -C $WT reset -q 2>/dev/null
 cd /verif
 EV=evidence/$P.json; cp $EV /tmp/seedwt/$P.evidence.bak 2>/dev/null
 GOOM_REPO=$WT VERIF_BUILD=/verif/build/seed-$P timeout 3000 python3 check.py $P --tier $TIER; rc=$?
 cp /tmp/seedwt/$P.evidence.bak $EV 2>/dev/null
-git -C $WT checkout -q -- . ; git -C $WT clean -fdq
+git -C $WT reset -q --hard 2>/dev/null; git -C $WT clean -fdq
 git -C /verif checkout -- lean/GoomVerif/Gen 2>/dev/null
 echo "try_seed rc=$rc"
 exit $rc
